@@ -73,7 +73,8 @@ def make_inventory(unit_facts):
             d = inv["functions"].setdefault(fd["file"], {})
             if fd["name"] in d:
                 continue
-            d[fd["name"]] = {"static": fd["static"], "sig": _sig(fd), "locals": _locals(fd)}
+            d[fd["name"]] = {"static": fd["static"], "sig": _sig(fd), "locals": _locals(fd),
+                             "switches": sum(1 for b in fd["blocks"] if (b.get("term") or {}).get("kind") == "SwitchStmt")}
         for r in u["records"]:
             if "fields" in r and r["name"]:
                 inv["records"][r["name"]] = [[x["name"], x["t"], x["off"], x.get("size")] for x in r["fields"]]
@@ -128,6 +129,9 @@ def apply(unit_facts, log=None):
             known = inv["functions"].get(fd["file"], {}).get(fd.get("inv_name", fd["name"]))
             _propagate_new_locals(fd, known, log)
             _expand_flag_branches(fd, log)
+            if known is not None and known.get("switches", 0) > sum(1 for b in fd["blocks"]
+                                                                     if (b.get("term") or {}).get("kind") == "SwitchStmt"):
+                _chains_to_switches(fd, log)
             _compound_assignments(fd, log)
     return log
 
@@ -453,6 +457,157 @@ def _inline_at(fd, bid, pos, cid, callee, serial):
 
 def _locals_fd(fd):
     return _locals(fd)
+
+
+# --------------------------------------------------------------------------
+# N8 an if / else-if chain over one value is a switch
+
+def _chains_to_switches(fd, log):
+    """A function that had more switch statements when the tables were confirmed: chains of tests `S == c`, `S != c`,
+    `lo <= S && S <= hi` on one side-effect free value S, each in a block of its own, are given back the shape of a
+    switch (one labelled entry block per case, the last else as default)."""
+    exprs = fd["exprs"]
+    blocks = {b["id"]: b for b in fd["blocks"]}
+    nxt = [max(blocks) + 1]
+    preds = {}
+    for b in fd["blocks"]:
+        for s_ in b["succs"]:
+            if s_ is not None:
+                preds.setdefault(s_, []).append(b["id"])
+
+    def evaluated(i):
+        """The operand of a (nested) && / || chain that the block itself evaluates."""
+        n = 0
+        while i is not None and i >= 0 and n < 40:
+            n += 1
+            e = exprs[i]
+            if e["k"] in ("cast", "opaque") and e.get("c"):
+                i = e["c"][0]
+            elif e["k"] == "call" and e.get("callee") == "__builtin_expect" and e.get("c"):
+                i = e["c"][0]
+            elif e["k"] == "bin" and e["op"] in ("&&", "||"):
+                i = e["c"][1]
+            else:
+                return i
+        return i
+
+    def test(bid):
+        """(scrutinee key, scrutinee node, op, constant, T succ, F succ) of a block that only tests `S op c`."""
+        b = blocks[bid]
+        t = b.get("term")
+        if not t or "cond" not in t or t.get("kind") not in ("IfStmt", "BinaryOperator") or len(b["succs"]) != 2 or None in b["succs"]:
+            return None
+        j = evaluated(t["cond"])
+        e = exprs[j]
+        if e["k"] != "bin" or e["op"] not in ("==", "!=", "<=", ">=", "<", ">"):
+            return None
+        a, c = e["c"]
+        va, vc = exprs[_strip(fd, a)].get("v"), exprs[_strip(fd, c)].get("v")
+        op = e["op"]
+        if isinstance(va, int) and not isinstance(vc, int):
+            a, c, va, vc = c, a, vc, va
+            op = {"<": ">", ">": "<", "<=": ">=", ">=": "<=", "==": "==", "!=": "!="}[op]
+        if not isinstance(vc, int) or isinstance(va, int):
+            return None
+        k = _skey(fd, a)
+        if k is None:
+            return None
+        return k, a, op, vc, b["succs"][0], b["succs"][1]
+
+    def pure(bid, first):
+        """Only the first block of a chain may do anything but evaluate its test."""
+        if first:
+            return True
+        for i in blocks[bid]["elems"]:
+            e = exprs[i]
+            if e["k"] in ("asg", "call", "decl", "ret") or (e["k"] == "un" and e["op"] in ("++", "--")):
+                return False
+        return True
+    done = set()
+    n_sw = 0
+    for b in list(fd["blocks"]):
+        hid = b["id"]
+        if hid in done:
+            continue
+        t0 = test(hid)
+        if t0 is None:
+            continue
+        key = t0[0]
+        # not a head: the only way in is the test of the same value just before
+        ps = preds.get(hid, [])
+        if ps and all((test(p) or (None,))[0] == key and p != hid for p in ps) and pure(hid, False):
+            continue
+        cases = []          # (lo, hi, target)
+        cur, first = hid, True
+        chain = []
+        default = None
+        while True:
+            tt = test(cur)
+            if tt is None or tt[0] != key or not pure(cur, first) or (not first and len(preds.get(cur, [])) != 1
+                                                                      and not all(p in chain for p in preds.get(cur, []))):
+                default = cur
+                break
+            k_, a, op, c, T, F = tt
+            chain.append(cur)
+            first = False
+            if op == "==":
+                cases.append((c, c, T))
+                cur = F
+            elif op == "!=":
+                cases.append((c, c, F))
+                cur = T
+            elif op in (">=", ">") :
+                # lo <= S && S <= hi : the T successor tests the upper bound and shares the F successor
+                lo = c if op == ">=" else c + 1
+                t2 = test(T)
+                if t2 is not None and t2[0] == key and t2[2] in ("<=", "<") and t2[5] == F and pure(T, False):
+                    hi = t2[3] if t2[2] == "<=" else t2[3] - 1
+                    chain.append(T)
+                    cases.append((lo, hi, t2[4]))
+                    cur = F
+                else:
+                    chain.pop()
+                    default = cur
+                    break
+            else:
+                chain.pop()
+                default = cur
+                break
+            if cur in chain:
+                default = None
+                break
+        if len(cases) < 2 or default is None:
+            continue
+        # overlapping cases would change the meaning (the first match wins in a chain)
+        ok = True
+        for x in range(len(cases)):
+            for y in range(x + 1, len(cases)):
+                if not (cases[x][1] < cases[y][0] or cases[y][1] < cases[x][0]):
+                    ok = False
+        if not ok:
+            continue
+        head = blocks[hid]
+        line = (head.get("term") or {}).get("line", 0)
+        succs = []
+        for lo, hi, tgt in cases:
+            nid = nxt[0]
+            nxt[0] += 1
+            nb = {"id": nid, "elems": [], "succs": [tgt], "label": {"case": [lo, hi]}}
+            fd["blocks"].append(nb)
+            blocks[nid] = nb
+            succs.append(nid)
+        nid = nxt[0]
+        nxt[0] += 1
+        nb = {"id": nid, "elems": [], "succs": [default], "label": {"default": 1}}
+        fd["blocks"].append(nb)
+        blocks[nid] = nb
+        succs.append(nid)
+        head["term"] = {"kind": "SwitchStmt", "cond": t0[1], "line": line, "n8": 1}
+        head["succs"] = succs
+        done.update(chain)
+        n_sw += 1
+    if n_sw:
+        log.add("N8", "%s(): %d if / else-if chain(s) over one value read as switch statement(s)" % (fd["name"], n_sw))
 
 
 # --------------------------------------------------------------------------
